@@ -50,7 +50,7 @@ def gen_c10(rng, idx, tier, faults):
     method = rng.choice(["tikhonov", "cutoff"])
     na = rng.randint(1, 10)
     if alpha_type == "absolute":
-        alphas = [10 ** rng.uniform(-12, 3) for _ in range(na)]
+        alphas = [10 ** rng.uniform(-12, 3) if rng.random() > 0.04 else 0.0 for _ in range(na)]
     else:
         alphas = [rng.choice([0.0, 10 ** rng.uniform(-12, -0.01), rng.uniform(0, 0.99)]) for _ in range(na)]
     if rng.random() < 0.5:
@@ -113,7 +113,7 @@ def gen_c10(rng, idx, tier, faults):
     ops = []
     for li in range(nlanes):
         pr = dict(params)
-        pr["n_jobs"] = rng.choice([None, 1, 2, 3])
+        pr["n_jobs"] = rng.choice([None, 1, 2, 3, -1])
         if faults and (li > 0 or rng.random() < 0.7):
             jb = {
                 "mode": rng.choice(["reorder", "reorder", "batch", "isolate", "twice", "threads", "threads"]),
